@@ -10,8 +10,11 @@ require (
 )
 
 require (
+	github.com/mmirko/mel v0.0.0-20250221224538-07744443e851 // indirect
+	github.com/x448/float16 v0.8.4 // indirect
 	golang.org/x/mod v0.24.0 // indirect
 	golang.org/x/sync v0.13.0 // indirect
+	google.golang.org/protobuf v1.36.6 // indirect
 )
 
 replace github.com/BondMachineHQ/BondMachine => /repo
